@@ -5,6 +5,7 @@ import (
 	"fmt"
 	"math/rand"
 	"sort"
+	"strings"
 
 	"github.com/btcsuite/btcd/btcutil"
 	"github.com/btcsuite/btcd/mempool"
@@ -12,6 +13,7 @@ import (
 	"github.com/btcsuite/btcd/wire"
 	"github.com/btcsuite/btcwallet/waddrmgr"
 	"github.com/btcsuite/btcwallet/wallet"
+	"github.com/btcsuite/btcwallet/wallet/txauthor"
 
 	"verif/internal/evid"
 	"verif/internal/wh"
@@ -46,6 +48,14 @@ func walletAuthoring(r *evid.Run, dir string, cs int64) {
 			}
 		}
 	}
+	// half of the wallets also hold coins worth about what an input costs at the
+	// higher fee rates
+	small := rg.Intn(2) == 0
+	if small {
+		if err := f.FundSmall(rg, 3+rg.Intn(5)); err != nil {
+			small = false
+		}
+	}
 	var log []string
 	fail := func(key, what string) {
 		r.Violation(key, what, "wallet", cs, map[string]any{"requests": log, "what": what})
@@ -62,9 +72,18 @@ func walletAuthoring(r *evid.Run, dir string, cs int64) {
 		if impScopes[sc] && rg.Intn(3) == 0 {
 			acct = waddrmgr.ImportedAddrAccount // spend the coins of the imported key
 		}
+		// with small coins around: 1 in 3 requests selects over all scopes of the
+		// default account (mixed input types) at a rate where some of them cost more
+		// than they are worth, and asks for nearly everything the coins can yield
+		scp := &sc
+		sweepLike := small && acct == 0 && rg.Intn(2) == 0
+		if sweepLike {
+			scp = nil
+			rate = btcutil.Amount([]int{20000, 50000, 100000}[rg.Intn(3)])
+		}
 		var elig []*wh.Coin
 		for _, c := range f.SortedCoins() {
-			if f.Ineligible(c, &sc, acct, 1) == "" {
+			if f.Ineligible(c, scp, acct, 1) == "" {
 				elig = append(elig, c)
 			}
 		}
@@ -86,6 +105,21 @@ func walletAuthoring(r *evid.Run, dir string, cs int64) {
 			}
 		}
 		nout := 1 + rg.Intn(3)
+		// what all eligible coins together yield after paying for themselves at their
+		// worst-case signed size (the largest-first strategy may spend every coin)
+		var netAll int64
+		for _, c := range elig {
+			netAll += c.Out.Value - int64(feeFor(rate, worstInputVSize(c.Out.PkScript)))
+		}
+		// overhead + a change output of the largest type; the requested outputs are
+		// added below, once they are known.  Every size here is >= the wallet's own
+		// estimate, so "covered" by this arithmetic implies covered by the wallet's.
+		baseSize := 11 + 43
+		if sweepLike {
+			if v := netAll - int64(feeFor(rate, baseSize+nout*43)) - 100 - int64(rg.Intn(400)); v > 1000 {
+				amt, placed = v, false
+			}
+		}
 		var outs []*wire.TxOut
 		for i := 0; i < nout; i++ {
 			v := amt / int64(nout)
@@ -94,19 +128,39 @@ func walletAuthoring(r *evid.Run, dir string, cs int64) {
 			}
 			outs = append(outs, wire.NewTxOut(v, dests[rg.Intn(len(dests))]))
 		}
+		for _, o := range outs {
+			baseSize += 9 + len(o.PkScript)
+		}
+		baseFee := int64(feeFor(rate, baseSize))
 		want := make([]wire.TxOut, len(outs))
 		for i, o := range outs {
 			want[i] = wire.TxOut{Value: o.Value, PkScript: append([]byte(nil), o.PkScript...)}
 		}
-		atx, err := f.W.CreateSimpleTx(&sc, acct, outs, 1, rate, wallet.CoinSelectionLargest, false)
+		atx, err := f.W.CreateSimpleTx(scp, acct, outs, 1, rate, wallet.CoinSelectionLargest, false)
 		if acct == waddrmgr.ImportedAddrAccount && err == nil {
 			r.Hit("wallet-authored-from-the-imported-keys-account", 1)
 		}
 		desc := fmt.Sprintf("CreateSimpleTx scope=%v account=%d amount=%d in %d outputs rate=%d (placed on the %d largest of %d eligible coins: %v)", sc, acct, amt, nout, rate, k, len(elig), placed)
+		if sweepLike {
+			desc += " [all scopes, nearly everything the coins yield]"
+		}
 		if err != nil {
 			log = append(log, desc+" -> "+err.Error())
 			r.Hit("wallet-authoring-refused", 1)
+			// "insufficient funds" only if the eligible coins cannot cover outputs + fee:
+			// spending every eligible coin is one of the selections largest-first can make
+			var ise txauthor.InputSourceError
+			if (errors.As(err, &ise) || strings.Contains(err.Error(), "insufficient funds")) && netAll >= amt+baseFee+50 {
+				fail("c07:wallet:insufficient-funds-although-covered", fmt.Sprintf("%s: refused with %q although the %d eligible coins yield %d sat after paying for their own worst-case inputs, and outputs + base fee need at most %d", desc, err, len(elig), netAll, amt+baseFee))
+				return
+			}
+			if sweepLike {
+				r.Hit("wallet-sweep-like-requests-refused", 1)
+			}
 			continue
+		}
+		if sweepLike {
+			r.Hit("wallet-sweep-like-requests-authored", 1)
 		}
 		tx := atx.Tx
 		// the wallet hands transactions of the imported-keys account back unsigned
@@ -206,6 +260,22 @@ func walletAuthoring(r *evid.Run, dir string, cs int64) {
 		}
 	}
 	r.Case(fmt.Sprint("wallet", cs, len(log)), len(log) > 0)
+}
+
+// worstInputVSize: virtual size of an input spending pk with the largest
+// signature its type can carry.
+func worstInputVSize(pk []byte) int {
+	switch txscript.GetScriptClass(pk) {
+	case txscript.PubKeyHashTy:
+		return 149
+	case txscript.ScriptHashTy: // nested P2WPKH
+		return 92
+	case txscript.WitnessV0PubKeyHashTy:
+		return 69
+	case txscript.WitnessV1TaprootTy:
+		return 58
+	}
+	return 149
 }
 
 func mustAddr(a btcutil.Address, err error) btcutil.Address {
